@@ -24,7 +24,8 @@ fn main() {
             let out = args.get(3).expect("OUT");
             let jobs: usize = args.get(4).and_then(|s| s.parse().ok()).unwrap_or(8);
             let timeout: u64 = args.get(5).and_then(|s| s.parse().ok()).unwrap_or(20);
-            std::process::exit(pool::run(inp, out, jobs, timeout));
+            let max_hangs: usize = args.get(6).and_then(|s| s.parse().ok()).unwrap_or(24);
+            std::process::exit(pool::run(inp, out, jobs, timeout, max_hangs));
         }
         _ => {
             eprintln!("usage: scv worker | scv run IN OUT [JOBS] [TIMEOUT_S]");
